@@ -681,6 +681,11 @@ class Flows:
                         if pp != bp:
                             continue
                         nstack = stack + (("clos", pp, s_.bb, s_.idx),)
+                        if skip_selectors and data_only:
+                            # provenance mode: what a closure contributes to the adaptor's result is what it RETURNS
+                            # (`filter_map(|n| if keep(n) { Some(n.clone()) } else { None })` returns n, not the test)
+                            work.append((cp, L(0), nstack))
+                            continue
                         for k in list(cf.dep().keys()):
                             if data_only and k[0] == "SW":
                                 continue
